@@ -180,6 +180,28 @@ class SeedFlow:
                     break
         if callee is not None:
             self.edges.append((callee, args, kw, e.lineno))
+        # a repository function that takes a seed must be GIVEN one by a seeded caller: omitting it lets the callee seed itself from OS entropy
+        target = None
+        if callee is not None:
+            target = self.mod.funcs.get(callee)
+        elif isinstance(e.func, ast.Attribute) and isinstance(e.func.value, ast.Name):
+            try:
+                from . import frontend
+                r = frontend.resolve_name(self.mod, e.func.value.id)
+                if r is not None and r[0] == "module" and e.func.attr in r[1].funcs:
+                    target = r[1].funcs[e.func.attr]
+            except Exception:
+                target = None
+        if target is not None:
+            params = [a.arg for a in target.args.args]
+            if params and params[0] == "self" and callee is not None and "." in callee:
+                pass
+            for sp in self.seed_params:
+                if sp in params:
+                    pos = params.index(sp) - (1 if (params and params[0] == "self" and not (callee is not None and args and args[0] == {"SELF"})) else 0)
+                    given = sp in kw or (0 <= pos < len(e.args) + (1 if (callee is not None and args and args[0] == {"SELF"} and len(args) > len(e.args)) else 0))
+                    if not given:
+                        self.sites.append(SeedSite(self.fname, e.lineno, "call of %s omits its %s argument (the callee would seed itself from OS entropy)" % (ftxt[:40], sp), False))
         if "seed" in kw:
             x = kw["seed"]
             ok = x <= {"SEED", "GEN", "NONE-BY-CALLER"}
